@@ -28,14 +28,6 @@ end
 section
 variable {K : Type} [LT K] [LE K] [DecidableLT K] [DecidableLE K]
 
-/-- What `np.isnan(delta_h)`, `delta_h > delta_h_threshold`, `delta_h <= delta_h_threshold`
-evaluate to for each outcome of the trial step (`none`: the step raised `IntegratorError`). -/
-def tests (thr : K) : Outcome K → Option (Bool × Bool × Bool)
-  | .err => none
-  | .nan => some (true, false, false)
-  | .inf => some (false, true, false)
-  | .val q => some (false, decide (thr < q), decide (q ≤ thr))
-
 /-- The `for s in range(max_init_step_size_iters)` loop around the *generated* loop body
 (`search_try`: the `try` block, `search_except`: the handler): one trial step at `2^e`, then
 return `e` or halve / double. -/
